@@ -414,7 +414,7 @@ pub fn build(p: &Program) -> (Value, Vec<u32>) {
 }
 
 /// the registry and, per entry, the source definition it instantiates (`None` for built-in shapes)
-pub fn build_labelled(p: &Program) -> (Value, Vec<Option<usize>>) {
+pub fn build_with_defs(p: &Program) -> (Value, Vec<Option<usize>>) {
     let mut it = Interner::new(&p.defs);
     for r in &p.roots {
         it.intern(r);
